@@ -147,8 +147,11 @@ static inline bool uqueue_push(struct uqueue *uqueue, void *element)
         ueventfd_write(&uqueue->event_push);
     }
 
-    if (unlikely(uatomic_fetch_add(&uqueue->counter, 1) == 0))
-        ueventfd_write(&uqueue->event_pop);
+    /* The counter may lag behind the FIFO when several threads push or pop
+     * at the same time, so it cannot tell whether a popper went to sleep:
+     * always signal. */
+    uatomic_fetch_add(&uqueue->counter, 1);
+    ueventfd_write(&uqueue->event_pop);
     return true;
 }
 
@@ -173,8 +176,10 @@ static inline void *uqueue_pop_internal(struct uqueue *uqueue)
         ueventfd_write(&uqueue->event_pop);
     }
 
-    if (unlikely(uatomic_fetch_sub(&uqueue->counter, 1) == uqueue->length))
-        ueventfd_write(&uqueue->event_push);
+    /* Same as in uqueue_push: the counter cannot tell whether a pusher went
+     * to sleep, always signal. */
+    uatomic_fetch_sub(&uqueue->counter, 1);
+    ueventfd_write(&uqueue->event_push);
     return element;
 }
 
